@@ -1,7 +1,8 @@
 """C18 — composite values keep every component intact (layout soundness).
 Theorems: Props/C18.lean over Model/Layout.lean (any pointer size that is a power of two, any nesting).
 Tie: gohook layout (real mir.DataLayout / resultTagOffset) vs fvdriver layout on generated type expressions
-(exhaustive to depth 2, random deeper), and whole-compiler sentinel programs on both targets."""
+(exhaustive to depth 2, random deeper), whole-compiler sentinel programs on both targets, and the heap of the wasm runtime
+(runtime.js ferret_alloc under node vs Model/WasmAlloc.lean: blocks inside the memory, pairwise disjoint)."""
 import os, sys, json, itertools
 sys.path.insert(0, os.path.join(os.path.dirname(os.path.abspath(__file__)), "..", "lib"))
 from common import *
@@ -212,6 +213,73 @@ class Prog:
         return "\n".join(lines) + "\n", exp
 
 
+def check_wasm_alloc(rep, rng, tier):
+    """Lane `wasm-alloc`: the heap of the shipped runtime.js (bind + ferret_alloc over a real WebAssembly.Memory, harness/wallocrun.mjs)
+    against Model/WasmAlloc.lean (fvdriver walloc) on generated allocation sequences.  A block whose last byte cannot be written, or two
+    blocks that overlap, is a concrete violation (the composite stored there is lost / overwritten); any other difference breaks the tie."""
+    n = 400 if tier == "quick" else 6000
+    lines = ["1024 1 40000 40000 3 0 70000", "0 1 65536 1", "9 2 7 1 0 131056", "65529 1 1", "65528 1 8 8", "100 3"]
+    dist = {"small": 0, "page-crossing": 0, "multi-page": 0, "zero": 0}
+    for i in range(n):
+        pages = 1 + rng.below(3)
+        data_end = rng.below(pages * 65536 - 8)
+        sizes = []
+        for _ in range(1 + rng.below(24)):
+            k = rng.below(10)
+            if k == 0:
+                sizes.append(0); dist["zero"] += 1
+            elif k < 6:
+                sizes.append(1 + rng.below(64)); dist["small"] += 1
+            elif k < 9:
+                sizes.append(1000 + rng.below(70000)); dist["page-crossing"] += 1
+            else:
+                sizes.append(65536 * (1 + rng.below(4)) + rng.below(9)); dist["multi-page"] += 1
+        lines.append("%d %d %s" % (data_end, pages, " ".join(map(str, sizes))))
+    text = "".join(l + "\n" for l in lines)
+    env = dict(os.environ, VERIF_REPO=REPO)
+    r = run(["node", os.path.join(VERIF, "harness", "wallocrun.mjs")], input=text, env=env, timeout=600)
+    real = r.stdout.split("\n")
+    model = run_driver(["walloc"], text).split("\n")
+    stats = {"sequences": len(lines), "allocations": sum(len(l.split()) - 2 for l in lines), "size_classes": dist, "grown": 0, "diffs": 0}
+    if r.returncode != 0 or len(real) < len(lines):
+        rep.fail("tie:walloc:harness", "the runtime.js heap harness no longer runs against the tree: %s" % (r.stderr or "")[-300:],
+                 {"kind": "broken-obligation", "correspondence": "harness/wallocrun.mjs vs fvdriver walloc", "detail": (r.stderr or "")[-2000:]}, no_input=True)
+        return stats
+    diff = None
+    for l, a, b in zip(lines, real, model):
+        f = l.split()
+        sizes = list(map(int, f[2:]))
+        blocks = []
+        bad = None
+        for sz, cell in zip(sizes, a.split()):
+            c = cell.split(":")
+            if c[0] == "threw":
+                bad = "the runtime threw %s" % cell; break
+            addr, mem, ok = int(c[0]), int(c[1]), c[2]
+            if mem > int(f[1]) * 65536: stats["grown"] += 1
+            if ok != "ok":
+                bad = "the block of %d bytes handed out at %d ends outside the memory (%d bytes): writing its last byte traps" % (sz, addr, mem); break
+            for (a0, s0) in blocks:
+                if sz > 0 and s0 > 0 and addr < a0 + s0 and a0 < addr + sz:
+                    bad = "blocks [%d,+%d) and [%d,+%d) overlap" % (a0, s0, addr, sz); break
+            if bad: break
+            blocks.append((addr, sz))
+        if bad is None and len(a.split()) != len(sizes):
+            bad = "the runtime answered %d of %d allocations" % (len(a.split()), len(sizes))
+        if bad:
+            # shrink: shortest prefix of the size list that still fails is what the loop above stopped at
+            rep.fail("walloc:" + hashlib_sha(l)[:10], "wasm runtime heap: dataEnd=%s pages=%s sizes=%s: %s" % (f[0], f[1], sizes[:len(blocks) + 1], bad),
+                     {"kind": "heap", "input_line": l, "runtime": a, "model": b, "replay": "echo '%s' | node /verif/harness/wallocrun.mjs" % l})
+            return stats
+        if a != b:
+            stats["diffs"] += 1
+            diff = diff or {"input_line": l, "runtime": a, "model": b}
+    if diff:
+        rep.fail("tie:walloc", "Model/WasmAlloc.lean and runtime.js ferret_alloc disagree on %d allocation sequences although every block lies inside the memory and none overlap" % stats["diffs"],
+                 dict(diff, kind="broken-obligation", correspondence="harness/wallocrun.mjs vs fvdriver walloc"), no_input=True)
+    return stats
+
+
 def main():
     tier = os.environ.get("VERIF_TIER", "quick")
     rep = Report(PID)
@@ -325,6 +393,9 @@ def main():
                      (target, j, r.lines[j] if j < len(r.lines) else None, exp[j] if j < len(exp) else None, r.run_rc),
                      {"kind": "input", "files": job["files"], "target": target, "expected": exp, "observed": r.lines, "cmd": "ferret -o out main.fer && ./out"})
 
+    # ---- the heap of the wasm runtime
+    walloc = check_wasm_alloc(rep, rng, tier)
+
     # ---- proof obligations
     ok, out = lake_build(["FerretVerif.Props.C18"])
     names = theorem_names("C18")
@@ -353,13 +424,14 @@ def main():
         "checker_cmd": "cd /verif/lean && lake build FerretVerif.Props.C18 && #print axioms per theorem",
         "trusted_base": ["Lean 4 kernel", "axioms: " + ", ".join(sorted({a for v in axioms.values() if v for a in v})),
                          "gohook layout (real mir.NewDataLayout(ps).SizeOf/AlignOf/StructLayout, Generator.resultTagOffset)",
-                         "python layout-soundness oracle; sentinel program generator (expected output computed statically)"],
+                         "python layout-soundness oracle; sentinel program generator (expected output computed statically)",
+                         "harness/wallocrun.mjs (runtime.js bind/ferret_alloc over a real WebAssembly.Memory under node) vs Model/WasmAlloc.lean; JS numbers modelled by Nat (addresses below 2^31), memory.grow assumed to succeed"],
         "theorems": [{"name": n, "axioms": axioms.get(n)} for n in names],
         "evaluations": checked + len(jobs), "distinct_nontrivial": len([t for t in allt if trees[t][0] != "L"]),
         "rule": "type expressions: all leaves, exhaustive depth-1/2 composites over reduced leaf sets, random to depth 4, closed under subterms, "
                 "x pointer sizes {8,4}; non-trivial = distinct composite (non-leaf) type expressions; plus sentinel programs on native and wasm",
         "samples": allt[5:len(allt):max(1, len(allt) // 10)],
-        "exhaustive": False, "model_vs_code_diffs": diffs[:10], "whole_compiler": wc,
+        "exhaustive": False, "model_vs_code_diffs": diffs[:10], "whole_compiler": wc, "wasm_runtime_heap": walloc,
     }
     write_evidence(PID, "proof", cov,
                    assumptions=["wasm back end supports only <=64-bit integers in composites (larger payloads and optionals/results are outside the common domain; counted as rejected_by_backend)",
